@@ -6,7 +6,9 @@ import gens, blk, compcases as cc
 from capi import Lib, Buf
 
 THEOREMS = ["C17_target_ge_bound", "C17_target_ge_bound_contract", "C17_fast_destSize", "C17_fast_fill_generic"]
-CORRESPONDENCE = ["Model.FastApi.compress_destSize == LZ4_compress_destSize / _destSize_extState (return value, consumed size, bytes, high-water mark)"]
+CORRESPONDENCE = [cc.MID_CORR,
+                  "Model.FastApi.compress_destSize == LZ4_compress_destSize / _destSize_extState (return value, consumed size, bytes, high-water mark)"]
+ORACLES = ["block", "mid"]
 RULE = ("inputs from the shared structured generators; EVERY targetDstSize 1..bound+1 for inputs <= 40 bytes, targets dense around each sequence boundary "
         "of the unconstrained output and random otherwise; entry points LZ4_compress_destSize, LZ4_compress_destSize_extState (any acceleration incl. <= 0 and huge), "
         "LZ4_compress_HC_destSize levels 1..12 (mid, hash-chain, optimal parsers), LZ4_compress_HC_continue_destSize inside a stream followed by further "
@@ -19,16 +21,18 @@ ASSUMPTIONS = ["64-bit little-endian target"]
 
 def build(tier):
     from vlib import build_lib
-    return {"lib": build_lib("default")}
+    return {"lib": build_lib("default"), "midstate": cc.midstate_lib()}
 
 def gen_cases(tier, seed):
     rng = random.Random(seed * 977 + 17)
     n = {"quick": 64, "search": 256, "thorough": 600}[tier]
     cases = [{"bseed": 0, "count": 1, "mode": "corpus"}]
     cases += [{"bseed": rng.randrange(1 << 48), "count": 5, "mode": ["small", "mid", "mid", "big", "stream", "stream", "accel"][i % 7]} for i in range(n)]
+    cases += cc.mid_gen_cases(rng, tier, 0.5)
     return cases
 
-worker_init = blk.worker_init
+def worker_init(ctx):
+    return cc.mid_worker(blk.worker_init(ctx), ctx)
 
 def check_block(st, res, info, what, src_offered, target, r, consumed, out, hist=b""):
     """the destSize contract for one call"""
@@ -154,7 +158,18 @@ def targets_for(st, rng, src, dense):
     pts.update(rng.randrange(1, b + 2) for _ in range(6))
     return sorted(t for t in pts if 1 <= t <= b + 1)
 
+def mid_judge(st):
+    def judge(kind, src, cap, r, consumed, out):
+        if kind != "ds":
+            return None
+        res = cc.new_res()
+        ok = check_block(st, res, {}, "LZ4_compress_HC_destSize", src, cap, r, consumed, out)
+        return None if ok else res["fails"][0]["what"]
+    return judge
+
 def run_case(st, case):
+    if case.get("mode") == "hcmid":
+        return cc.run_mid_case(st, case, mid_judge(st))
     rng = random.Random(case["bseed"])
     res = cc.new_res()
     mode = case["mode"]
